@@ -51,6 +51,47 @@ func (l Layout) String() string {
 	return fmt.Sprintf("exec=%s,resolver=%s,worker_limit=%d,models=%s", l.Exec, l.Resolver, l.Worker, l.Models)
 }
 
+// baseline layout used by failure minimisation.
+var baseLayout = Layout{"single-file", "none", 0, "generated"}
+
+// ResetDim resets dimension i (0 models, 1 worker_limit, 2 resolver layout, 3 exec layout) to
+// the baseline; ok is false when it already has the baseline value.
+func (l Layout) ResetDim(i int) (Layout, bool) {
+	t := l
+	switch i {
+	case 0:
+		t.Models = baseLayout.Models
+	case 1:
+		t.Worker = baseLayout.Worker
+	case 2:
+		t.Resolver = baseLayout.Resolver
+	case 3:
+		t.Exec = baseLayout.Exec
+	}
+	return t, t != l
+}
+
+// NonBaseline names the dimensions that differ from the baseline layout.
+func (l Layout) NonBaseline() string {
+	var p []string
+	if l.Exec != baseLayout.Exec {
+		p = append(p, "exec="+l.Exec)
+	}
+	if l.Resolver != baseLayout.Resolver {
+		p = append(p, "resolver="+l.Resolver)
+	}
+	if l.Worker != baseLayout.Worker {
+		p = append(p, fmt.Sprintf("worker_limit=%d", l.Worker))
+	}
+	if l.Models != baseLayout.Models {
+		p = append(p, "models="+l.Models)
+	}
+	if len(p) == 0 {
+		return "baseline-layout"
+	}
+	return strings.Join(p, ",")
+}
+
 func allLayouts() []Layout {
 	var out []Layout
 	for _, e := range []string{"single-file", "follow-schema"} {
